@@ -28,6 +28,13 @@ SEEDS = [
     # left recursion through the SEPARATOR of a gather whose element can match nothing
     "start: a NEWLINE\na: a.('w'*)+ 'x' | 'y'\n",
     "start: c.('w'?)+ 'z'\nc: start 'q' | 'x'\n",
+    # a rule that reaches itself at the same position INSIDE a lookahead operand
+    "start: a NEWLINE\na: &a 'x' | 'y'\n",
+    "start: a NEWLINE\na: !a 'x' | 'y'\n",
+    "start: a NEWLINE\na: (&a 'x')* 'y'\n",
+    "start: a NEWLINE\na: &b 'x' | 'y'\nb: a 'z' | 'y'\n",
+    "start: a NEWLINE\na: 'q'? !(b 'k') 'x' | 'y'\nb: 'w'* a\n",
+    "start: a NEWLINE\na: &&(&a) 'y' | 'y'\n",
 ]
 
 PRELUDE = g2c.HEADER + """From Pegen Require Import Analysis.Visitor Analysis.Scc Analysis.Nullable.
@@ -70,6 +77,15 @@ def grammar_texts(tier):
                        lookahead_terminals_only=True)
     for t in gramgen.gen_grammars(r, kn, 40 if tier == "quick" else 1500):
         yield t
+    # lookahead operands that are rule references, groups, optionals ... (recursion through an operand)
+    import dataclasses
+    kn2 = dataclasses.replace(kn, lookahead_terminals_only=False)
+    for t in gramgen.gen_grammars(r, kn2, 25 if tier == "quick" else 800):
+        yield t
+    # grammars that are (mostly) free of left recursion: the instances of the termination theorem
+    kn3 = dataclasses.replace(kn2, forward_refs_only=True, nullable_loops=False, terminals=("'x'", "'y'", "NAME", "'k'?", "NUMBER"))
+    for t in gramgen.gen_grammars(r, kn3, 40 if tier == "quick" else 1000):
+        yield t
 
 
 def flags_of(res):
@@ -111,6 +127,7 @@ def run(chk: common.Check, tier: str):
     r = common.rng("c03-perm")
     cases, descs, jobs, jobmeta = [], [], [], []
     vcases, vdescs = [], []
+    tcases, tdescs = [], []
     for text in grammar_texts(tier):
         try:
             g0 = A.permuted(text, None)
@@ -143,6 +160,12 @@ def run(chk: common.Check, tier: str):
                 vcases.append(f"({clist([k for k, _ in gr], cstr)}, {clist(gr, lambda kv: f'({cstr(kv[0])}, {clist(kv[1], cstr)})')}, "
                               f"{clist(res['sccs'], lambda c: clist(c, cstr))}, {clist(res['left_rec'], cstr)})")
                 vdescs.append(desc)
+            if res["kind"] == "ok" and not res["left_rec"]:
+                # the real analysis finds no left recursion: its own flags and a rank computed from its own first
+                # graph must pass the verified termination checker (Proofs/PegTotal.v)
+                tcases.append(f"({term}, {clist(res['nullable'], cstr)}, "
+                              f"{clist(sorted(_ranks(res['graph']).items()), lambda kv: f'({cstr(kv[0])}, {kv[1]}%nat)')})")
+                tdescs.append(desc)
             if res["kind"] == "ok" and "start" in g.rules:
                 names = list(A.permuted(text, None).rules)
                 ptext = "\n".join(_rule_text(text, names[i]) for i in perm) + "\n"
@@ -165,6 +188,35 @@ def run(chk: common.Check, tier: str):
                    f"{len(vcases)} (grammar, order) cases: the components the real generator computed are the mutual-"
                    "reachability classes of its first graph and its left_recursive flags are exactly the rules on a cycle",
                    not vbad, json.dumps([vdescs[i] for i in vbad[:3]]))
+    tbad = common.run_cases(chk, "termination", g2c.HEADER + "From Pegen Require Import Analysis.Visitor Sem.Peg Proofs.NullSem Proofs.PegTotal.\n"
+                            "Require Import Tables.\n"
+                            "Definition K0 : kinds := {| kNAME := 1; kNUMBER := 2; kSTRING := 3; kOP := 55; kNEWLINE := 4; kINDENT := 5; "
+                            "kDEDENT := 6; kENDMARKER := 0; kTYPE_COMMENT := 59; kFSTRING_START := 61; kFSTRING_MIDDLE := 62; "
+                            "kFSTRING_END := 63; kASYNC := 57; kAWAIT := 56 |}.\n"
+                            "Lemma nullable_table_grants : nul_tbl_ok nullable_tbl = true.\nProof. vm_compute. reflexivity. Qed.\n",
+                            "grammar * list string * list (string * nat)", tcases,
+                            "fun c => let '(g, nul, rk) := c in let v := term_verdict nullable_tbl K0 (rules g) [] [] nul rk in "
+                            "Nat.eqb v 0 || Nat.eqb v 3", shard=300)
+    TPRE = (g2c.HEADER + "From Pegen Require Import Analysis.Visitor Sem.Peg Proofs.NullSem Proofs.PegTotal.\nRequire Import Tables.\n"
+            "Definition K0 : kinds := {| kNAME := 1; kNUMBER := 2; kSTRING := 3; kOP := 55; kNEWLINE := 4; kINDENT := 5; "
+            "kDEDENT := 6; kENDMARKER := 0; kTYPE_COMMENT := 59; kFSTRING_START := 61; kFSTRING_MIDDLE := 62; "
+            "kFSTRING_END := 63; kASYNC := 57; kAWAIT := 56 |}.\n")
+    outside = common.run_cases(chk, "termination_shape", TPRE, "grammar * list string * list (string * nat)", tcases,
+                               "fun c => let '(g, nul, rk) := c in negb (Nat.eqb (term_verdict nullable_tbl K0 (rules g) [] [] nul rk) 3)",
+                               shard=300)
+    if outside is not None:
+        chk.bump("termination theorem applies (verdict 0)", len(tcases) - len(outside))
+        chk.bump("termination theorem does not apply: repetition of something that can match nothing (verdict 3)", len(outside))
+    if tbad is not None:
+        chk.oblige(f"instance conditions of C03_no_cycle_at_one_position_means_every_parse_terminates on {len(tcases)} (grammar, order) "
+                   "cases in which the real analysis flags no rule as left-recursive: the real nullable flags are closed under the "
+                   "equations of the extracted table and a rank computed from the real first graph strictly decreases along every "
+                   "initial invocation of the grammar (inside lookahead operands, groups, optionals, repetitions, after nullable "
+                   "items); i.e. the real first graph misses no edge, and the reference semantics terminates on every input",
+                   not tbad, json.dumps([tdescs[i] for i in tbad[:3]]))
+        for i in tbad[:3]:
+            chk.violation("a rule can reach itself at the same position (or an initial invocation is missing from the first graph) "
+                          "although no rule is flagged left-recursive", tdescs[i], True)
     failing = common.run_cases(chk, "kanalysis", PRELUDE, "grammar * eres", cases, OK, shard=200)
     if failing is not None:
         chk.oblige(f"correspondence K-analysis: Analysis/Nullable.v + Scc.v (driven by the extracted tables) agree with "
@@ -204,6 +256,21 @@ def run(chk: common.Check, tier: str):
                     break
     chk.assumptions += ["left-recursion completeness is relative to the SCC computation (C16: unbounded for leaders, "
                         "bounded + correspondence for components)"]
+
+
+def _ranks(graph: dict) -> dict:
+    """longest-path depth in the real first graph (a witness for the verified checker; 0 where a cycle would be met)"""
+    memo: dict = {}
+
+    def rk(n, stack):
+        if n in memo:
+            return memo[n]
+        if n in stack:
+            return 0
+        v = 1 + max([rk(m, stack | {n}) for m in graph.get(n, []) if m in graph] + [-1])
+        memo[n] = v
+        return v
+    return {n: rk(n, frozenset()) for n in graph}
 
 
 def _rule_text(text: str, name: str) -> str:
